@@ -23,5 +23,7 @@ run)
   for p in "$@"; do ./check "$p" | tail -3; done
   git -C /repo checkout -- .
   git -C /repo status --short | head -3
+  # the evidence files now describe the seeded tree: put the committed ones back
+  git -C /verif checkout -- evidence
   ;;
 esac
